@@ -16,7 +16,7 @@ try:
     m=re.search(r'^extra=(\{.*\})$',src,re.M)
     extra=json.loads(m.group(1))
 except Exception: pass
-extra.update({"C02-r4a":["C15"],"C02-r4b":["C15"],"C04-r4b":["C15"],"C05-r4a":["C01"],"C07-r4a":["C13"],"C13-r4a":["C07"],"C12-r4a":["C07","C01"],"C11-r4b":["C15"],"C09-r4b":["C18"],"C01-r5a":["C07"],"C01-r5b":["C07","C12"],"C06-r5a":["C02"],"C10-r5a":["C11"],"C18-r5a":["C09"],"C08-r5a":["C12","C13"],"C08-r5b":["C12"],"C19-r5a":["C14"]})
+extra.update({"C02-r4a":["C15"],"C02-r4b":["C15"],"C04-r4b":["C15"],"C05-r4a":["C01"],"C07-r4a":["C13"],"C13-r4a":["C07"],"C12-r4a":["C07","C01"],"C11-r4b":["C15"],"C09-r4b":["C18"],"C01-r5a":["C07"],"C01-r5b":["C07","C12"],"C06-r5a":["C02"],"C10-r5a":["C11"],"C18-r5a":["C09"],"C08-r5a":["C12","C13"],"C08-r5b":["C12"],"C19-r5a":["C14"],"C02-r6a":["C08","C12"],"C02-r6b":["C15"],"C05-r6a":["C12","C13"],"C05-r6b":["C01","C19"],"C11-r6a":["C15"],"C12-r6b":["C15"],"C13-r6a":["C12"],"C13-r6b":["C12"],"C14-r6a":["C08"],"C14-r6b":["C16"],"C16-r6a":["C15"],"C04-r6b":["C10"]})
 try: res=json.load(open(V+'/seeded/RESULTS.json'))
 except Exception: res={}
 lock=threading.Lock(); q=queue.Queue()
